@@ -110,7 +110,7 @@ EXTRA = {
  "C14": "The alphabet holds a read-only import for the second document (so that the write import is an upgrade of an open, subscribed document); one history takes 300 handles on a document and releases them one by one. Open with a subscriber whose receiver is gone (document 0) is in the alphabet; family A also abandons the upgrade of an open read-only document and then writes.",
  "C15": "Family L (real nodes): the last node of the swarm is given one of five policies; of the contents written elsewhere it fetches exactly those whose key the policy selects (selected and still held: present within the deadline; not selected: absent).",
  "C16": "Removal and re-creation of a 1102-entry document (13 authors, among them the all-zero and the all-0xFF id) between its byte-order neighbours. The collector also asks while the store actor is blocked for 6.5 s (thorough 22 s) by a slow subscriber: whenever the callback says continue, every held hash is protected.",
- "C17": "Family R runs on the machine's own clock (no hook) with a file-backed store reopened at every prefix: the store opened again is younger than the registrations it finds.",
+ "C17": "Family M: store files written with redb 3 in the redb 2.x tuple format (as older releases wrote them) with 0, 1, 3 and 5 registered peers are opened (and thereby converted): the list is the one that was stored. Family R runs on the machine's own clock (no hook) with a file-backed store reopened at every prefix: the store opened again is younger than the registrations it finds.",
  "C18": "A database of 2100 authors with two entries each goes through the same table deletions and reopen cycles. Two further variants give the file the shape of the oldest versions (documents listed in table namespaces-1, the current table and both derived tables absent).",
 }
 for _pid, _t in EXTRA.items():
